@@ -95,11 +95,11 @@ def verify(exc, buf, cheap=False):
     if key in SS.SENSE_KEYS:
         expect(SS.norm(SS.SENSE_KEYS[key]) in ntext, "mismatch:sense_key_name", key=key, text=text)
     code = (asc << 8) | ascq
-    if asc < 0x80 and ascq < 0x80:
-        if code in SS.ASC:
-            expect(SS.norm(SS.ASC[code]) in ntext, "mismatch:t10_text", code="%04X" % code, text=text,
-                   want=SS.ASC[code])
-        elif code in lib_table():
+    if code in SS.ASC:
+        # assigned by T10 (this includes 5Dh/FFh, which lies in the otherwise vendor-specific ASCQ range)
+        expect(SS.norm(SS.ASC[code]) in ntext, "mismatch:t10_text", code="%04X" % code, text=text, want=SS.ASC[code])
+    elif asc < 0x80 and ascq < 0x80:
+        if code in lib_table():
             expect(SS.norm(lib_table()[code]) in ntext, "mismatch:own_text_not_shown", code="%04X" % code, text=text)
         else:
             nontrivial = True
